@@ -1,7 +1,236 @@
-//! Generators for the families mw, eff, sub, api, build, two.
+//! Generators for the families mw and eff.
+use crate::gen::*;
 use crate::model::*;
 
-pub fn generate(family: &str, _seed: u64) -> Program {
-    eprintln!("simcheck: unknown family {family}");
-    std::process::exit(2);
+pub fn generate(family: &str, seed: u64) -> Program {
+    match family {
+        "mw" => mw(seed),
+        "eff" => eff(seed),
+        _ => crate::gen4::generate(family, seed),
+    }
+}
+
+fn sub_direct(read: bool) -> SubCfg {
+    SubCfg { kind: SubKind::Direct, read_state: read, gate: None, sleep_ms: 0, shared: false }
+}
+
+/// family mw: middleware verdict matrix
+pub fn mw(seed: u64) -> Program {
+    let mut g = Gen::new(seed);
+    let faulty = g.rng.chance(50);
+    let knobs = g.knobs(faulty);
+    let nred = g.rng.range(1, 2) as u32;
+    let nmw = g.rng.range(1, 3) as u32;
+    let reds: Vec<u32> = (0..nred).collect();
+    let mws: Vec<u32> = (100..100 + nmw).collect();
+    let cap = g.rng.pick(&CAPS);
+    let builder = g.canonical_builder("mw", cap, Policy::Block, &reds, &mws);
+    let stores = vec![StoreCfg { builder, droppable: false, stepper: None, ctor: 0 }];
+    let mut subs = vec![];
+    let mut main = vec![Op::Build { store: 0 }];
+    let mut regs = 0;
+    for _ in 0..g.rng.range(1, 2) {
+        subs.push(sub_direct(g.rng.chance(20)));
+        main.push(Op::AddSub { store: 0, sub: subs.len() - 1, reg: regs });
+        regs += 1;
+    }
+    if g.rng.chance(30) {
+        subs.push(SubCfg { kind: SubKind::Selector, read_state: false, gate: None, sleep_ms: 0, shared: false });
+        main.push(Op::AddSub { store: 0, sub: subs.len() - 1, reg: regs });
+        regs += 1;
+    }
+    let nact = g.rng.range(1, 4) as usize;
+    let nprod = g.rng.range(1, 2) as usize;
+    let mut threads: Vec<Vec<Op>> = vec![vec![]];
+    for _ in 0..nprod {
+        threads.push(vec![]);
+    }
+    for _ in 0..nact {
+        let a = g.plain_act(&reds, 35);
+        for &m in &mws {
+            let mut sc = MwScript::default();
+            for h in 0..3 {
+                sc.verdict[h] = match g.rng.below(20) {
+                    0..=10 => Verdict::Continue,
+                    11..=13 => Verdict::Done,
+                    14..=16 => Verdict::Break,
+                    _ => {
+                        if faulty {
+                            Verdict::Err
+                        } else {
+                            Verdict::Continue
+                        }
+                    }
+                };
+                sc.read[h] = g.rng.chance(10);
+            }
+            if g.rng.chance(30) {
+                let k = g.rng.range(1, 2);
+                for _ in 0..k {
+                    sc.remove.push(g.rng.below(2) as usize);
+                }
+            }
+            if g.rng.chance(6) {
+                let id = g.new_eff();
+                sc.thunk = Some(EffSpec { id, kind: EffKind::Thunk(vec![]), panic: false, gate: None, sleep_ms: 0 });
+            }
+            g.acts.get_mut(&a).unwrap().mw.insert(m, sc);
+        }
+        let t = g.rng.range(1, nprod as u64) as usize;
+        let via = g.via();
+        threads[t].push(Op::Dispatch { store: 0, act: a, via });
+    }
+    if g.rng.chance(10) {
+        let t = g.rng.range(1, nprod as u64) as usize;
+        let pos = g.rng.below(threads[t].len() as u64 + 1) as usize;
+        threads[t].insert(pos, Op::AddMiddleware { store: 0, tag: 150 });
+    }
+    for t in 1..threads.len() {
+        main.push(Op::Start { thread: t });
+    }
+    for t in 1..threads.len() {
+        main.push(Op::Join { thread: t });
+    }
+    if g.rng.chance(30) {
+        main.push(Op::Settle);
+        main.push(Op::GetMetrics { store: 0 });
+    }
+    main.push(Op::Stop { store: 0 });
+    main.push(Op::GetState { store: 0 });
+    main.push(Op::GetMetrics { store: 0 });
+    for r in 0..regs {
+        main.push(Op::Unsub { reg: r });
+    }
+    threads[0] = main;
+    g.finish("mw", stores, subs, regs, 0, 0, threads, knobs, faulty)
+}
+
+/// family eff: effects of all four kinds, follow-ups, panicking / parked / slow effects
+pub fn eff(seed: u64) -> Program {
+    let mut g = Gen::new(seed);
+    let faulty = g.rng.chance(50);
+    let mut knobs = g.knobs(faulty);
+    knobs.cpus = g.rng.pick(&[1, 1, 2, 2, 3, 4, 16]);
+    let policy = if g.rng.chance(85) { Policy::Block } else { g.rng.pick(&[Policy::DropOldest, Policy::DropLatest]) };
+    let nred = g.rng.range(1, 2) as u32;
+    let reds: Vec<u32> = (0..nred).collect();
+    let mws: Vec<u32> = if g.rng.chance(30) { vec![100] } else { vec![] };
+    let cap = g.rng.pick(&[2usize, 3, 5, 16, 16]);
+    let builder = g.canonical_builder("eff", cap, policy, &reds, &mws);
+    let stores = vec![StoreCfg { builder, droppable: false, stepper: None, ctor: 0 }];
+    let mut subs = vec![];
+    let mut main = vec![Op::Build { store: 0 }];
+    let mut regs = 0;
+    if g.rng.chance(70) {
+        subs.push(sub_direct(false));
+        main.push(Op::AddSub { store: 0, sub: 0, reg: 0 });
+        regs = 1;
+    }
+    let mut gates = 0usize;
+    let use_gate = g.rng.chance(25);
+    let nprod = g.rng.range(1, 2) as usize;
+    let mut threads: Vec<Vec<Op>> = vec![vec![]];
+    let mut depth_budget = 6;
+    for _ in 0..nprod {
+        let n = g.rng.range(1, 4) as usize;
+        let mut ops = vec![];
+        for _ in 0..n {
+            if g.rng.chance(15) {
+                // client-submitted thunk / task
+                let id = g.new_eff();
+                let thunk = g.rng.chance(60);
+                let kind = if thunk {
+                    let k = g.rng.below(3);
+                    EffKind::Thunk((0..k).map(|_| g.plain_act(&reds, 0)).collect())
+                } else {
+                    EffKind::Task
+                };
+                let spec = EffSpec { id, kind, panic: faulty && g.rng.chance(15), gate: None, sleep_ms: 0 };
+                ops.push(if thunk { Op::Thunk { store: 0, eff: spec } } else { Op::Task { store: 0, eff: spec } });
+                continue;
+            }
+            let a = g.new_act();
+            let mut sc = ActScript { sel: g.rng.below(3) as u8, ..Default::default() };
+            for &t in &reds {
+                let mut rs = RedScript { keep: g.rng.chance(25), ..Default::default() };
+                if g.rng.chance(55) {
+                    let id = g.new_eff();
+                    let kind = match g.rng.below(10) {
+                        0..=2 => {
+                            // follow-up action, itself plain (or with one more effect while budget lasts)
+                            depth_budget -= 1;
+                            let b = g.plain_act(&reds, if depth_budget > 0 { 25 } else { 0 });
+                            EffKind::Action(b)
+                        }
+                        3..=5 => EffKind::Task,
+                        6..=7 => {
+                            let k = g.rng.below(3);
+                            EffKind::Thunk((0..k).map(|_| g.plain_act(&reds, 0)).collect())
+                        }
+                        _ => EffKind::Function,
+                    };
+                    let is_action = matches!(kind, EffKind::Action(_));
+                    let gate = if use_gate && !is_action && g.rng.chance(30) {
+                        gates = 1;
+                        Some(0)
+                    } else {
+                        None
+                    };
+                    rs.eff = Some(EffSpec {
+                        id,
+                        kind,
+                        panic: faulty && !is_action && g.rng.chance(20),
+                        gate,
+                        sleep_ms: if g.rng.chance(15) { g.rng.pick(&[1u32, 100]) } else { 0 },
+                    });
+                }
+                sc.red.insert(t, rs);
+            }
+            for &m in &mws {
+                let mut ms = MwScript::default();
+                if g.rng.chance(40) {
+                    ms.remove.push(g.rng.below(2) as usize);
+                }
+                sc.mw.insert(m, ms);
+            }
+            g.acts.insert(a, sc);
+            let via = g.via();
+            ops.push(Op::Dispatch { store: 0, act: a, via });
+        }
+        threads.push(ops);
+    }
+    for t in 1..threads.len() {
+        main.push(Op::Start { thread: t });
+    }
+    // stop racing the producers (any backlog at the time of stop()) or after they are done
+    let early_stop = g.rng.chance(30);
+    if !early_stop {
+        for t in 1..threads.len() {
+            main.push(Op::Join { thread: t });
+        }
+        if g.rng.chance(50) {
+            main.push(Op::Settle);
+            main.push(Op::Snap { tag: 0 });
+        }
+    }
+    let leave_parked = gates > 0 && g.rng.chance(20);
+    if gates > 0 && !leave_parked {
+        main.push(Op::Open { gate: 0, n: 1_000_000 });
+        if g.rng.chance(50) {
+            main.push(Op::Settle);
+        }
+    }
+    main.push(Op::Stop { store: 0 });
+    if early_stop {
+        for t in 1..threads.len() {
+            main.push(Op::Join { thread: t });
+        }
+    }
+    main.push(Op::GetState { store: 0 });
+    main.push(Op::GetMetrics { store: 0 });
+    for r in 0..regs {
+        main.push(Op::Unsub { reg: r });
+    }
+    threads[0] = main;
+    g.finish("eff", stores, subs, regs, 0, gates, threads, knobs, faulty)
 }
